@@ -245,6 +245,21 @@ func (s *Server) DidSave(ctx context.Context, params *protocol.DidSaveTextDocume
 		}
 		// the include cache is shared by all documents, workspace or not
 		s.loader.InvalidateFile(path)
+
+		// open documents that include the saved file hold its previous text in their tree
+		s.documents.Range(func(key, value any) bool {
+			docURI, ok := key.(protocol.DocumentURI)
+			text, isText := value.(string)
+			if !ok || !isText || docURI == params.TextDocument.URI {
+				return true
+			}
+			if resolved := s.GetResolved(docURI); resolved != nil {
+				if _, included := resolved.Files[path]; included {
+					go s.publishDiagnostics(ctx, docURI, text)
+				}
+			}
+			return true
+		})
 	}
 	return nil
 }
